@@ -166,6 +166,8 @@ def run(ctx):
     shared.decision_table_rule(ctx, "C12.R2")
     # R3 load errors propagate
     shared.load_errors_propagate_rule(ctx, "C12.R3")
+    from . import harvest
+    harvest.failed_save_rule(ctx, "C12.R4")
 
     sl = ctx.res.slice(entries, stop={"xyzpy.gen.combo_runner.combo_runner_to_ds", "xyzpy.gen.combo_runner.combo_runner_core"})
     sl = [f for f in sl if f.module.name == "xyzpy.gen.cropping"]
